@@ -19,6 +19,22 @@ def render_case(case) -> dict:
     from hv.build import attr_value, build
 
     objs = [build(r) for r in case["roots"]]
+    # API calls applied after construction are part of "the same construction"
+    for op in case.get("ops", []):
+        tags = [o for o in objs if isinstance(o, h.Tag)]
+        if not tags:
+            break
+        t = tags[op[1] % len(tags)]
+        if op[0] == "add_class":
+            t.add_class(op[2], prepend=bool(op[3]))
+        elif op[0] == "remove_class":
+            t.remove_class(op[2])
+        elif op[0] == "add_style":
+            t.add_style(op[2], prepend=bool(op[3]))
+        elif op[0] == "update":
+            t.attrs.update({k: v for k, v in op[2]})
+        elif op[0] == "append":
+            t.append(op[2], [op[2], None, (op[2],)])
     tl = h.TagList(*objs)
     r = tl.render()
     out = {
@@ -44,6 +60,7 @@ def render_case(case) -> dict:
     for p in case.get("payloads", []):
         hc.append(h.head_content(*[build(x) for x in p]).name)
     out["headc_names"] = hc
+    out["css"] = str(h.css(**{k: v for k, v in case.get("css", [])}))
     return out
 
 
